@@ -660,12 +660,14 @@ def specials(rng):
     decls += [{"decl": "enum Mode { FAST = 4, SAFE = 2, NONE = 0, AUTO }"}, {"decl": "int weight(Mode m)"}]
     # an assumed-rank argument: one Fortran specific per rank from F_assumed_rank_min to F_assumed_rank_max, both ends included
     decls += [{"decl": "int sumv(const int *values +dimension(..), int nvalues)", "options": {"F_assumed_rank_max": 2}}]
+    # an overload set whose FIRST member has an explicit suffix: the others keep the number of their position in the whole set
+    decls += [{"decl": "int putx(char c)", "format": {"function_suffix": "_char"}}, {"decl": "int putx(int v)"}, {"decl": "int putx(double v)"}]
     decls += [{"decl": "int labelv(std::string name)"}, {"decl": "int labelv(bool flag)"}]          # the same with the string passed by value
     # a const method whose class ALSO has a non-const overload that is not wrapped: the wrapper must call through a pointer to const
     # a class instance returned BY VALUE (method and function): the wrapper keeps a heap copy whose address goes into the capsule
     mdecls = [{"decl": "int addmul(int a, int b = 2)"}, {"decl": "int peekc() const"}, {"decl": "Thing twin(int d) const"}]
     decls.append({"decl": "Thing makeThing(int v)"})
-    hpp = ["int total_length(const std::vector<std::string> &names);", "int label(const std::string &name);", "int label(bool flag);", "int labelv(std::string name);", "int labelv(bool flag);", "enum Mode { FAST = 4, SAFE = 2, NONE = 0, AUTO };", "int weight(Mode m);",
+    hpp = ["int total_length(const std::vector<std::string> &names);", "int label(const std::string &name);", "int label(bool flag);", "int labelv(std::string name);", "int labelv(bool flag);", "int putx(char c);", "int putx(int v);", "int putx(double v);", "enum Mode { FAST = 4, SAFE = 2, NONE = 0, AUTO };", "int weight(Mode m);",
            "int sumv(const int *values, int nvalues);", "void iota_out(int n, std::vector<int> &arg);", "void put(int v);", "void eq_trace_put(double v, int size);",
            "template<typename T> void put(T v) { eq_trace_put((double)v, (int)sizeof(T)); }", "const std::string getlbl(int i);", "const std::string getlbl2(int i);", "void vgrow(std::vector<int> &arg, int extra);", "struct Pt { int x; double y; };",
            "int pt_cref(const Pt &p);", "void pt_scale(Pt &p, int k);", "int pt_val(Pt p);", "int pt_ptr(const Pt *p);", "double tagd(const std::string &name, double arg);",
@@ -703,6 +705,9 @@ def specials(rng):
            'void iota_out(int n, std::vector<int> &arg) { std::cout << "callee iota_out(" << n << ")\\n"; arg.clear(); for (int i = 0; i < n; ++i) arg.push_back(101 + i); }',
            'int weight(Mode m) { std::cout << "callee weight(" << (int)m << ")\\n"; return m == NONE ? 0 : m == AUTO ? 1 : m == SAFE ? 2 : m == FAST ? 4 : -1; }',
            'int sumv(const int *values, int nvalues) { int t = 0; for (int i = 0; i < nvalues; ++i) t += values[i]; std::cout << "callee sumv(n=" << nvalues << ",sum=" << t << ")\\n"; return t; }',
+           'int putx(char c) { std::cout << "callee putx(char " << (int)c << ")\\n"; return 10; }',
+           'int putx(int v) { std::cout << "callee putx(int " << v << ")\\n"; return 20 + v; }',
+           'int putx(double v) { std::cout << "callee putx(double "; show(v); std::cout << ")\\n"; return 30; }',
            'int labelv(std::string name) { std::cout << "callee labelv(string [" << name << "])\\n"; return 200 + (int)name.size(); }',
            'int labelv(bool flag) { std::cout << "callee labelv(bool " << (flag ? 1 : 0) << ")\\n"; return flag ? 3 : 2; }',
            'int label(bool flag) { std::cout << "callee label(bool " << (flag ? 1 : 0) << ")\\n"; return flag ? 1 : 0; }',
@@ -788,6 +793,8 @@ def specials(rng):
     for drv, fn in ((direct, "sumv"), (cdrv, "EQ_sumv")):
         drv += ["    { int sp_s0 = 9; int sp_s1[3] = {1, 2, 3}; int sp_s2[4] = {10, 20, 30, 40};"] + dshow("sumv0", "%s(&sp_s0, 1)" % fn) + \
             dshow("sumv1", "%s(sp_s1, 3)" % fn) + dshow("sumv2", "%s(sp_s2, 4)" % fn) + ["    }"]
+    direct += dshow("putx_c", "putx('a')") + dshow("putx_i", "putx(7)") + dshow("putx_d", "putx(2.5)")
+    cdrv += dshow("putx_c", "EQ_putx_char('a')") + dshow("putx_i", "EQ_putx_1(7)") + dshow("putx_d", "EQ_putx_2(2.5)")
     direct += dshow("labelv_pad", "labelv(std::string(%s))" % cstr(tg))
     cdrv += dshow("labelv_pad", "EQ_labelv_0((char *)%s)" % cstr(tg))
     direct += dshow("labelv_s", "labelv(std::string(%s))" % cstr(lab)) + dshow("labelv_b", "labelv(false)")
@@ -862,6 +869,9 @@ def specials(rng):
     fbody += ["    sp_i = sumv(sp_s0, 1_C_INT)"] + fshow("sumv0", f_show("int", "sp_i"))
     fbody += ["    sp_i = sumv(sp_s1, 3_C_INT)"] + fshow("sumv1", f_show("int", "sp_i"))
     fbody += ["    sp_i = sumv(sp_s2, 4_C_INT)"] + fshow("sumv2", f_show("int", "sp_i"))
+    fbody += ["    sp_i = putx('a')"] + fshow("putx_c", f_show("int", "sp_i"))
+    fbody += ["    sp_i = putx(7_C_INT)"] + fshow("putx_i", f_show("int", "sp_i"))
+    fbody += ["    sp_i = putx(2.5_C_DOUBLE)"] + fshow("putx_d", f_show("int", "sp_i"))
     fbody += ["    sp_i = labelv(sp_tg)"] + fshow("labelv_pad", f_show("int", "sp_i"))       # a blank-padded variable: trimmed on the way
     fbody += ["    sp_i = labelv(%s)" % fstr(lab)] + fshow("labelv_s", f_show("int", "sp_i"))
     fbody += ["    sp_i = labelv(.false.)"] + fshow("labelv_b", f_show("int", "sp_i"))
